@@ -34,6 +34,84 @@ LAZY = {
 }
 
 
+NULL_GUARDS = {}  # (getstate qual, key) -> options that are all falsy whenever the key is nulled
+
+
+def _falsy_options(fi, stmt):
+    """Option names o such that the guards of `stmt` imply `state[o]` / `state.get(o, ..)` / `self.o` is falsy."""
+    fa = FA(fi)
+    nid = next(iter(fa.find(lambda x: x is stmt)), None)
+    out = set()
+    if nid is None:
+        return out
+    for e, t in guard_facts(fa, nid):
+        if t is not False:
+            continue
+        for x in ([e] if not (isinstance(e, ast.BoolOp) and isinstance(e.op, ast.Or)) else e.values):
+            if isinstance(x, ast.Call) and isinstance(x.func, ast.Attribute) and x.func.attr == "get" and x.args and isinstance(x.args[0], ast.Constant):
+                out.add(x.args[0].value)
+            elif isinstance(x, ast.Subscript) and isinstance(x.slice, ast.Constant) and isinstance(x.slice.value, str):
+                out.add(x.slice.value)
+            elif isinstance(x, ast.Attribute) and isinstance(x.value, ast.Name) and x.value.id == "self":
+                out.add(x.attr)
+    return out
+
+
+def _reads_guarded_by(prog, c, attr, options):
+    """Every read of self.<attr> in the class family that is not preceded, in its function, by a store of it on every path
+    happens only where one of `options` is known to be truthy.  Returns (ok, first offending read)."""
+    for k in [c] + prog.subclasses(c) + [x for x in prog.mro(c) if x is not c]:
+        for m in k.methods.values():
+            if m.name in ("__getstate__", "__init__"):
+                continue
+            fa = None
+            for n in walk_no_nested(m.node):
+                if not (isinstance(n, ast.Attribute) and n.attr == attr and isinstance(n.ctx, ast.Load) and isinstance(n.value, ast.Name) and n.value.id == "self"):
+                    continue
+                fa = fa or FA(m)
+                nid = next((i for i, e in fa.find_expr(lambda e, n=n: e is n)), None)
+                if nid is None:
+                    continue
+                stores = fa.find(lambda s: isinstance(s, ast.Assign) and not (isinstance(s.value, ast.Constant) and s.value.value is None) and any(isinstance(t, ast.Attribute) and t.attr == attr and isinstance(t.value, ast.Name) and t.value.id == "self" for t in s.targets))
+                if any(s != nid and fa.dominates(s, nid) for s in stores):
+                    continue
+                facts = guard_facts(fa, nid)
+                if any(t is True and any(isinstance(x, ast.Attribute) and isinstance(x.value, ast.Name) and x.value.id == "self" and x.attr.lstrip("_") in {o.lstrip("_") for o in options} for x in ([e] if not isinstance(e, ast.BoolOp) else e.values)) for e, t in facts):
+                    continue
+                if any(isinstance(e, ast.Compare) and len(e.ops) == 1 and isinstance(e.ops[0], ast.Is) and src(e.left) == f"self.{attr}" and t is False for e, t in facts):
+                    continue  # `if self.a is not None:`
+                # ... or the function is only ever called (within the class family) after the attribute was stored
+                if _called_after_store(prog, c, m, attr, options):
+                    continue
+                return False, f"{m.short}: `{src(n)}` read with guards {[src(e)[:30] for e, _t in facts]}"
+    return True, ""
+
+
+def _called_after_store(prog, c, m, attr, options, depth=0):
+    sites = 0
+    for k in [c] + prog.subclasses(c) + [x for x in prog.mro(c) if x is not c]:
+        for g in k.methods.values():
+            if g is m:
+                continue
+            fa = None
+            for call in walk_no_nested(g.node):
+                if not (isinstance(call, ast.Call) and isinstance(call.func, ast.Attribute) and call.func.attr == m.name and isinstance(call.func.value, ast.Name) and call.func.value.id == "self"):
+                    continue
+                sites += 1
+                fa = fa or FA(g)
+                nid = next((i for i, e in fa.find_expr(lambda e, call=call: e is call)), None)
+                stores = fa.find(lambda s: isinstance(s, ast.Assign) and not (isinstance(s.value, ast.Constant) and s.value.value is None) and any(isinstance(t, ast.Attribute) and t.attr == attr and isinstance(t.value, ast.Name) and t.value.id == "self" for t in s.targets))
+                if nid is not None and any(s != nid and fa.dominates(s, nid) for s in stores):
+                    continue
+                facts = guard_facts(fa, nid) if nid is not None else []
+                if any(t is True and any(isinstance(x, ast.Attribute) and isinstance(x.value, ast.Name) and x.value.id == "self" and x.attr.lstrip("_") in {o.lstrip("_") for o in options} for x in ([e] if not isinstance(e, ast.BoolOp) else e.values)) for e, t in facts):
+                    continue
+                if depth < 2 and _called_after_store(prog, c, g, attr, options, depth + 1):
+                    continue
+                return False
+    return sites > 0
+
+
 def getstate_effects(fi):
     """(dropped, nulled, added, extras) extracted from a __getstate__ body."""
     dropped, nulled, added, extras = set(), {}, {}, []
@@ -46,6 +124,7 @@ def getstate_effects(fi):
             if isinstance(t, ast.Subscript) and isinstance(t.slice, ast.Constant) and isinstance(t.slice.value, str):
                 if isinstance(v, ast.Constant) and v.value is None:
                     nulled[t.slice.value] = v.value
+                    NULL_GUARDS.setdefault((fi.qual, t.slice.value), set()).update(_falsy_options(fi, n))
                 else:
                     added[t.slice.value] = v
         if isinstance(n, ast.Delete):
@@ -203,7 +282,12 @@ def run(ctx):
                 writes = a in sa.writes(e)
                 if a in nulled:
                     # present but None in the pickle: reading it cannot fail; it must be rebuilt by the entry point
-                    ctx.ob("R-PICKLE", "C12.1", c.qual, f"`{a}` (None in the pickle) is rebuilt by {entry}() on every path", writes, "")
+                    # ... unless it is nulled only in configurations in which nothing reads it before it is assigned again
+                    opts_ = NULL_GUARDS.get((prog.find_method(c, "__getstate__").qual, a), set()) if prog.find_method(c, "__getstate__") is not None else set()
+                    cond_ok, cond_why = (False, "")
+                    if not writes and opts_:
+                        cond_ok, cond_why = _reads_guarded_by(prog, c, a, opts_)
+                    ctx.ob("R-PICKLE", "C12.1", c.qual, f"`{a}` (None in the pickle) is rebuilt by {entry}() on every path", writes or cond_ok, cond_why if opts_ else "")
                     continue
                 wit = sa.needs(e, a)
                 ok = wit is None and writes
